@@ -943,7 +943,7 @@ var _ rpc.Resources
 
 // Every reference entry of every subscription points at a subscription of the same connection
 // (graph invariant, assumed: references are created through the connection's Subscribe).
-//@ define predRefsOK() bool = (forall x *Subscription, a string :: has(x.refs, a) ==> x.refs[a] != nil && x.refs[a].sub != nil && x.refs[a].sub.c == x.c) &&
+//@ define predRefsOK() bool = (forall x *Subscription, a string :: has(x.refs, a) ==> x.refs[a] != nil && x.refs[a].sub != nil && x.refs[a].sub.c == x.c && x.refs[a].count >= 1) &&
 //@     (forall x *Subscription :: x.refs == nil || allocated(x.refs))
 // A reference table belongs to one subscription (ownership, assumed).
 //@ define predOwnRefs(s *Subscription) bool = forall y *Subscription :: y != s && s.refs != nil ==> y.refs != s.refs
@@ -1368,7 +1368,7 @@ var _ rpc.Resources
 //@   assumes event.Event == "add" ==> event.Value.Type >= codec.ValueTypePrimitive && event.Value.Type <= codec.ValueTypeData
 // (of a resource's parents, the sent ones are a subset: indirectsent never exceeds indirect)
 //@   assumes forall x *Subscription :: x.indirectsent <= x.indirect
-//@   assert[C02] s.c.Send#1: forall x *Subscription :: x.indirectsent <= x.indirect
+//@   assert[C02] s.c.Send#1: forall x *Subscription :: !fresh(x) ==> x.indirectsent <= x.indirect
 //@   ensures[C03] old(s.c.(*wsConn).ws) != nil && event.Event == "add" && old(event.Value.Type) != codec.ValueTypeReference ==> wsframes == old(wsframes) + 1
 //@   ensures[C03] old(s.c.(*wsConn).ws) != nil && event.Event == "remove" ==> wsframes == old(wsframes) + 1
 //@   ensures[C03] old(s.c.(*wsConn).ws) != nil && event.Event != "add" && event.Event != "remove" && event.Event != "delete" ==> wsframes == old(wsframes) + 1 &&
